@@ -123,7 +123,18 @@ CHECKS = {
         "note": "NOT decided: 'different tags give unrelated keystreams / XOR of bodies differs from XOR of plaintexts beyond chance' - a cryptographic property of the permutation, declined.",
         "technique": "symbolic path summaries in a GF(2) term domain vs the documented construction",
     },
+    "C06": {
+        "text": "Clauses decided: (BOUNDS) all 1863 loads, stores, mem intrinsics and call arguments of the library stay inside the object they derive from - address = object + affine offset "
+                "(SCEV recurrences; paired non-affine cursors), sizes from a contract table (fixed sizes, paired length parameters, DWARF state sizes) and allocas, bounds from dominating comparisons "
+                "with consistent case splits on merge phis, call sites checked against callee contracts; the two inter-call invariants used (hash/HKDF block position) are re-established by every store "
+                "to those fields. (BYTEWISE/CONST) whole-module points-to: accesses to caller byte buffers claim alignment 1 (N0 and -O3) and are one byte wide (N0); nothing is written through a "
+                "pointer-to-const parameter. (SHIFT) constant in-range shift amounts. (EXACT) AEAD/SIV write exactly mlen+8 / clen-8 bytes per path class, refusals write nothing, wipes cover exactly "
+                "the requested bytes for every length/alignment class (D-COV). (ASM) stores/loads of the 27 assembly programs stay in the state words / frame. Plus compile-fail witnesses.",
+        "note": "Modular: inside a function pointer parameters have the documented sizes (contract table = trusted transcription of TinyJAMBU.h); unsigned length arithmetic assumed not to wrap "
+                "(the clen < 8 guard itself is C03's); uninitialised reads and some nsw obligations are listed as not decided; -O3 objects only for alignment claims; gcc not covered.",
+        "technique": "affine bounds analysis over LLVM IR with contracts (assume/guarantee) + points-to based access-shape rules + residue-affine coverage analysis",
+    },
 }
 
 _NB = "not built yet in this session (design exists in DESIGN.md; claimed only once its check fires on broken variants and is silent on the unchanged tree)"
-NOT_APPLICABLE = {p: _NB for p in ["C06", "C10", "C11", "C12", "C13", "C14", "C15", ]}
+NOT_APPLICABLE = {p: _NB for p in ["C10", "C11", "C12", "C13", "C14", "C15", ]}
